@@ -105,7 +105,8 @@ struct Cmd {
 
 struct Scenario {
   size_t size = 1, cap = 200, nlocks = 0, nqueues = 0, nctr = 0;
-  std::vector< std::pair< long, long > > deps; // -1 = null
+  std::vector< std::pair< long, long > > deps; // declared resources: -1 = setter not called
+  std::vector< bool > rev;                     // set_extra_dependency called BEFORE set_dependency
   bool hydro = false;                              // H section present
   std::vector< std::vector< size_t > > children;
   std::vector< size_t > queue_of;
@@ -139,7 +140,9 @@ static bool parse(const std::vector< std::string > &w, Scenario &sc) {
     }
   for (size_t i = 7; i + 1 < hpos; i += 2) {
     auto f = [](const std::string &s) { return s == "-" ? -1L : (long)u64(s); };
-    sc.deps.push_back({f(hd[i]), f(hd[i + 1])});
+    const bool r = !hd[i].empty() && hd[i][0] == 'r';
+    sc.rev.push_back(r);
+    sc.deps.push_back({f(r ? hd[i].substr(1) : hd[i]), f(hd[i + 1])});
   }
   sc.hydro = hpos < hd.size();
   sc.children.assign(sc.deps.size(), std::vector< size_t >());
@@ -222,9 +225,11 @@ struct World {
     for (size_t t = 0; t < sc.deps.size(); ++t) {
       const size_t i = tasks->get_free_element();
       Task &task = (*tasks)[i];
+      if (sc.rev[t] && sc.deps[t].second >= 0)
+        task.set_extra_dependency(&locks[sc.deps[t].second]);
       if (sc.deps[t].first >= 0)
         task.set_dependency(&locks[sc.deps[t].first]);
-      if (sc.deps[t].second >= 0)
+      if (!sc.rev[t] && sc.deps[t].second >= 0)
         task.set_extra_dependency(&locks[sc.deps[t].second]);
       for (size_t c : sc.children[t])
         task.add_child(c);
@@ -263,6 +268,27 @@ struct World {
 
   long lock_index(ThreadLock *l) const { return l - locks; }
 
+  // the first dependency was set first (the only order the call sites use)
+  bool conforming(size_t t) const {
+    return (sc.deps[t].first >= 0 && !sc.rev[t]) || (sc.deps[t].first < 0 && sc.deps[t].second < 0);
+  }
+  bool declared_free(size_t t) const {
+    const long d0 = sc.deps[t].first, d1 = sc.deps[t].second;
+    return (d0 < 0 || !locks[d0]._lock._value.load()) && (d1 < 0 || !locks[d1]._lock._value.load());
+  }
+  bool declared_held(size_t t) const {
+    const long d0 = sc.deps[t].first, d1 = sc.deps[t].second;
+    return (d0 < 0 || locks[d0]._lock._value.load()) && (d1 < 0 || locks[d1]._lock._value.load());
+  }
+  // class-level contract of Task (single-thread lines): failures for a setter order no call site
+  // uses are reported as candidates (tag on the answer line), not as violations
+  std::vector< std::string > candidates;
+  void contract(size_t t, const std::string &what) {
+    if (conforming(t))
+      bad(what + "(" + std::to_string(t) + ")");
+    else if (candidates.size() < 4)
+      candidates.push_back(what + (sc.rev[t] ? "[extra-before-first]" : "[extra-only]") + "(" + std::to_string(t) + ")");
+  }
   void bad(const std::string &what) {
     if (oracle.size() < 12) // a hammer line can hit the same failure thousands of times
       oracle.push_back(what);
@@ -494,7 +520,14 @@ static void run_program(World &w, int tid) {
       w.locks[k].unlock();
       out("U" + std::to_string(k));
     } else if (op == "lt") {
+      const bool free_before = w.sc.progs.size() == 1 && w.declared_free(c.a);
       const bool ok = (*w.tasks)[c.a].lock_dependency();
+      if (w.sc.progs.size() == 1) {
+        if (!ok && free_before)
+          w.contract(c.a, "lock_dependency-failed-although-all-declared-resources-are-free");
+        if (ok && !w.declared_held(c.a))
+          w.contract(c.a, "lock_dependency-succeeded-without-holding-a-declared-resource");
+      }
       {
         Guard g(w.om);
         if (ok) {
@@ -537,6 +570,8 @@ static void run_program(World &w, int tid) {
             w.bad("task-popped-more-often-than-added(" + std::to_string(t) + ")");
           w.take_task_locks(tid, t, "popped-task");
           mytasks.insert(mytasks.begin(), t);
+          if (w.sc.progs.size() == 1 && !w.declared_held(t))
+            w.contract(t, "popped-task-does-not-hold-a-declared-resource");
         }
       }
       if (t == NO_TASK && w.sc.progs.size() == 1) {
@@ -547,11 +582,8 @@ static void run_program(World &w, int tid) {
           const size_t x = Q->_queue[k];
           if (x >= w.sc.deps.size())
             continue;
-          const long d0 = w.sc.deps[x].first, d1 = w.sc.deps[x].second;
-          const bool free0 = d0 < 0 || !w.locks[d0]._lock._value.load();
-          const bool free1 = d1 < 0 || !w.locks[d1]._lock._value.load();
-          if (free0 && free1)
-            w.bad("pop-returned-no-task-although-queued-task-has-all-resources-free(" + std::to_string(x) + ")");
+          if (w.declared_free(x))
+            w.contract(x, "pop-returned-no-task-although-queued-task-has-all-resources-free");
         }
       }
       out("P" + std::to_string(c.a) + "." + (t == NO_TASK ? std::string("N") : std::to_string(t)));
@@ -837,6 +869,11 @@ static void run_scenario(const Scenario &sc, uint64_t lineno) {
     }
     if (!stuck.empty())
       o << " STUCK " << comma(stuck);
+  }
+  if (!w.candidates.empty()) {
+    o << " #CANDIDATE";
+    for (auto &cnd : w.candidates)
+      o << ":" << cnd;
   }
   std::cout << o.str() << "\n";
   for (auto &b : w.oracle)
